@@ -2,11 +2,11 @@
 // This file is part of peginator
 // Licensed under the MIT license. See LICENSE file in the project root for details.
 
-use anyhow::Result;
+use anyhow::{bail, Result};
 use proc_macro2::TokenStream;
 
 use super::common::{Codegen, CodegenSettings, FieldDescriptor};
-use crate::grammar::{Choice, Grammar, Grammar_rules, IncludeRule};
+use crate::grammar::{Choice, DelimitedExpression, Grammar, Grammar_rules, IncludeRule};
 
 impl Codegen for IncludeRule {
     fn generate_code_spec(
@@ -48,4 +48,67 @@ impl IncludeRule {
             })?
             .definition)
     }
+}
+
+fn collect_included_rules<'a>(choice: &'a Choice, result: &mut Vec<&'a str>) {
+    fn collect_from_expression<'a>(expr: &'a DelimitedExpression, result: &mut Vec<&'a str>) {
+        match expr {
+            DelimitedExpression::Group(g) => collect_included_rules(&g.body, result),
+            DelimitedExpression::Optional(o) => collect_included_rules(&o.body, result),
+            DelimitedExpression::Closure(c) => collect_included_rules(&c.body, result),
+            DelimitedExpression::NegativeLookahead(l) => collect_from_expression(&l.expr, result),
+            DelimitedExpression::PositiveLookahead(l) => collect_from_expression(&l.expr, result),
+            DelimitedExpression::IncludeRule(i) => result.push(&i.rule),
+            _ => (),
+        }
+    }
+    for sequence in &choice.choices {
+        for part in &sequence.parts {
+            collect_from_expression(part, result);
+        }
+    }
+}
+
+/// Rules that include (`>`) themselves, directly or through other rules, can never be expanded.
+pub fn check_include_cycles(grammar: &Grammar) -> Result<()> {
+    fn visit<'a>(
+        grammar: &'a Grammar,
+        name: &'a str,
+        path: &mut Vec<&'a str>,
+        finished: &mut Vec<&'a str>,
+    ) -> Result<()> {
+        if finished.contains(&name) {
+            return Ok(());
+        }
+        if path.contains(&name) {
+            bail!(
+                "Rule {name} includes itself (include cycle: {} > {name})",
+                path.join(" > ")
+            );
+        }
+        let rule = grammar.rules.iter().find_map(|r| match r {
+            Grammar_rules::Rule(r) if r.name == name => Some(r),
+            _ => None,
+        });
+        // Includes of missing rules are reported when the including rule is processed
+        if let Some(rule) = rule {
+            let mut included = Vec::new();
+            collect_included_rules(&rule.definition, &mut included);
+            path.push(name);
+            for included_name in included {
+                visit(grammar, included_name, path, finished)?;
+            }
+            path.pop();
+        }
+        finished.push(name);
+        Ok(())
+    }
+
+    let mut finished = Vec::new();
+    for rule_entry in &grammar.rules {
+        if let Grammar_rules::Rule(rule) = rule_entry {
+            visit(grammar, &rule.name, &mut Vec::new(), &mut finished)?;
+        }
+    }
+    Ok(())
 }
